@@ -49,6 +49,27 @@ class UFLObject(abc.ABC):
         return not self.__eq__(other)
 
 
+def getstate_without_cached_hash(self):
+    """Return the state to pickle, with the cached hash reset.
+
+    Hashes of UFL objects derive from ``str`` hashes, which are salted per
+    interpreter (``PYTHONHASHSEED``), so a cached hash is only valid in the
+    process that computed it and must not travel inside a pickle.
+    """
+    state = object.__getstate__(self)
+    if isinstance(state, tuple):
+        dict_state, slot_state = state
+    else:
+        dict_state, slot_state = state, None
+    if dict_state is not None and dict_state.get("_hash") is not None:
+        dict_state = {**dict_state, "_hash": None}
+    if slot_state is not None and slot_state.get("_hash") is not None:
+        slot_state = {**slot_state, "_hash": None}
+    if isinstance(state, tuple):
+        return (dict_state, slot_state)
+    return dict_state
+
+
 def get_base_attr(cls, name):
     """Return first non-``None`` attribute of given name among base classes."""
     for base in cls.mro():
